@@ -53,7 +53,7 @@ def generate(ck):
         pmax = wl.f(rng.uniform(1500, 3000)) if ck.tier == "quick" or i % 3 else wl.f(rng.uniform(3000, 14000))
         if ck.tier == "thorough" and i % 10 == 0:
             pmax = 14000.0
-        descs.append({"kind": "composition", "comp": comp, "pmax": float(int(pmax)), "picks": [wl.f(v) for v in rng.random(16)]})
+        descs.append({"kind": "composition", "comp": comp, "pmax": float(int(pmax)), "picks": [wl.f(v) for v in rng.random(16)], "threads": bool(i % 12 == 5)})
     for i in range(n):
         m = int(rng.choice([2, 3, 10, 50, 400]))
         if i % 2:
@@ -119,6 +119,28 @@ def run_case(ck, desc):
     dry = comp.pop("dryness")
     table = fluids.build_pvt_gas(comp, dry, maximum_pressure=desc["pmax"])
     ck.count("tables_built")
+    if desc.get("threads"):
+        # one table per well in a thread pool: four gases at four temperatures built at the same
+        # time, plus the quadrature route; every result equals the one obtained alone
+        import functools
+
+        groups = []
+        for k in range(4):
+            ck_ = dict(comp)
+            ck_["Reservoir Temperature (deg F)"] = comp["Reservoir Temperature (deg F)"] + 31.0 * k
+            ck_["Gas Specific Gravity"] = min(1.2, comp["Gas Specific Gravity"] + 0.04 * k)
+            tp = pseudocritical_point_Sutton(ck_["Gas Specific Gravity"], make_nonhydrocarbon_properties(ck_["N2"], ck_["H2S"], ck_["CO2"]), dry)
+            g = [functools.partial(lambda c_: fluids.build_pvt_gas(c_, dry, maximum_pressure=600.0)[["z-factor", "viscosity", "Density", "compressibility", "pseudopressure"]].to_numpy(), ck_)]
+            g += [functools.partial(lambda c_, tp_, p_: float(pseudopressure_Hussainy(c_["Reservoir Temperature (deg F)"], p_, tp_[0], tp_[1], c_["Gas Specific Gravity"])), ck_, tp, p_) for p_ in (300.0, 2500.0)]
+            groups.append(g)
+        bad, errs, n_calls = instrument.concurrent_vs_alone(groups)
+        ck.count("concurrent_evaluations", n_calls)
+        ck.count("thread_groups")
+        if errs:
+            ck.violation("threads-every-call-returns", {"errors": [e_[2] for e_ in errs[:3]]}, desc)
+        for k, i, a, b in bad[:3]:
+            a_, b_ = np.asarray(a, dtype=float), np.asarray(b, dtype=float)
+            ck.violation("threads-same-value-as-the-call-made-alone", {"what": "build_pvt_gas" if i == 0 else "pseudopressure_Hussainy", "thread": k, "entries_differing": int(np.sum(a_ != b_)) if a_.shape == b_.shape else None, "max_rel": float(np.nanmax(np.abs(a_ - b_) / np.abs(b_))) if a_.shape == b_.shape else None}, desc)
     # build it a second time after the caller has rescaled its own copy in place (what the flow
     # module's users do): the routes must still agree on the table that is returned now
     table["pseudopressure"] = (table["pseudopressure"] - table["pseudopressure"].iloc[len(table) // 3]) / table["pseudopressure"].iloc[-1]
